@@ -553,7 +553,7 @@ func typeDesc(t types.Type) string {
 					continue
 				}
 			}
-			out = append(out, f.Name())
+			out = append(out, fldName(f))
 		}
 		return out
 	}
